@@ -3125,6 +3125,228 @@ Qed.
 Theorem seg_allD : forall lk e, seg_stmtD lk e.
 Proof. intros lk e. apply seg_allD_aux. Qed.
 
+
+(* ---------- every compiled program only delegates easy blocks with the right group range ---------- *)
+Lemma okdeleg2_delegate1 e g : hard bs g e = false -> okdeleg2 (delegate1 e g).
+Proof.
+  intros Hh. unfold delegate1. destruct (is_literal e); [reflexivity|]. apply okdeleg2_cons. split; [|reflexivity].
+  unfold okinsn2. cbn [forallb]. rewrite (hard_easyx bs e g Hh). cbn [andb].
+  rewrite ngl_cons, ngl_nil, Nat.add_0_r, Nat.eqb_refl. reflexivity.
+Qed.
+
+Lemma okdeleg2_delegates l g : forallb easyx l = true -> okdeleg2 (delegates l g).
+Proof.
+  intros He. unfold delegates. destruct l as [|x r]; [reflexivity|]. destruct (forallb is_literal (x :: r)); [reflexivity|].
+  apply okdeleg2_cons. split; [|reflexivity]. unfold okinsn2. rewrite He, Nat.eqb_refl. reflexivity.
+Qed.
+
+Lemma prefix_easy : forall es g, forallb easyx (firstn (prefix_count bs g es) es) = true.
+Proof.
+  unfold prefix_count. induction es as [|x r IH]; intros g; [reflexivity|].
+  destruct (const_size x && negb (hard bs g x)) eqn:E; [|reflexivity].
+  apply andb_true_iff in E as [_ E]. apply negb_true_iff in E. cbn [firstn forallb].
+  rewrite (hard_easyx bs x g E). apply IH.
+Qed.
+
+Lemma take_while_rev' {A} (f : A -> bool) : forall m,
+  forallb f (skipn (length m - take_while_count f m) (rev m)) = true.
+Proof.
+  induction m as [|a m IH]; [reflexivity|]. cbn [take_while_count rev length]. destruct (f a) eqn:Ea.
+  - replace (S (length m) - S (take_while_count f m)) with (length m - take_while_count f m) by lia.
+    rewrite skipn_app. rewrite forallb_app, IH. cbn [andb].
+    rewrite rev_length. pose proof (take_while_count_le f m).
+    replace (length m - take_while_count f m - length m) with 0 by lia. cbn. now rewrite Ea.
+  - rewrite Nat.sub_0_r. replace (S (length m)) with (length (rev m ++ [a])) by (rewrite app_length, rev_length; cbn; lia).
+    now rewrite skipn_all.
+Qed.
+Lemma take_while_rev {A} (f : A -> bool) l :
+  forallb f (skipn (length l - take_while_count f (rev l)) l) = true.
+Proof. pose proof (take_while_rev' f (rev l)) as H. now rewrite rev_involutive, rev_length in H. Qed.
+
+Lemma suffix_easy hc es g :
+  forallb easyx (skipn (cat_sb bs hc g es) es) = true.
+Proof.
+  unfold cat_sb. cbv zeta. set (pe := prefix_count bs g es). set (kids := with_groups g es).
+  set (f1 := fun p : expr * nat => const_size (fst p) && negb (hard bs (snd p) (fst p))).
+  set (f2 := fun p : expr * nat => negb (hard bs (snd p) (fst p))).
+  assert (Hgen : forall f : expr * nat -> bool, (forall p, f p = true -> hard bs (snd p) (fst p) = false) ->
+            forallb easyx (skipn (length es - take_while_count f (rev (skipn pe kids))) es) = true).
+  { intros f Hf. pose proof (take_while_rev f (skipn pe kids)) as Ht.
+    rewrite skipn_add in Ht. rewrite skipn_length in Ht. unfold kids in Ht at 1. rewrite with_groups_length in Ht.
+    pose proof (take_while_count_le f (rev (skipn pe kids))) as Hle. rewrite rev_length, skipn_length in Hle.
+    unfold kids in Hle at 2. rewrite with_groups_length in Hle.
+    pose proof (prefix_count_le es g) as Hpe. fold pe in Hpe.
+    replace (pe + (length es - pe - take_while_count f (rev (skipn pe kids)))) with
+      (length es - take_while_count f (rev (skipn pe kids))) in Ht by lia.
+    set (n := length es - take_while_count f (rev (skipn pe kids))) in *. clearbody n.
+    rewrite forallb_forall in Ht. apply forallb_forall. intros x Hx.
+    assert (Hk : forall l g0 m y, In y (skipn m l) -> exists gy, In (y, gy) (skipn m (with_groups g0 l))).
+    { induction l as [|z l IHl]; intros g0 m y Hy; [destruct m; destruct Hy|].
+      destruct m as [|m]; cbn [skipn with_groups] in *.
+      - destruct Hy as [<-|Hy]; [exists g0; left; auto|]. destruct (IHl (g0 + ngroups z) 0 y Hy) as [gy Hgy].
+        exists gy. right. exact Hgy.
+      - apply IHl. exact Hy. }
+    destruct (Hk es g n x Hx) as [gx Hgx]. fold kids in Hgx.
+    apply (hard_easyx bs x gx). apply (Hf (x, gx)). apply Ht. exact Hgx. }
+  destruct hc; apply Hgen; intros p Hp; unfold f1, f2 in Hp.
+  - apply andb_true_iff in Hp as [_ Hp]. now apply negb_true_iff in Hp.
+  - now apply negb_true_iff in Hp.
+Qed.
+
+Definition VO (e : expr) : Prop := forall g hc pc ns code ns', visit bs e g hc pc ns = inr (code, ns') -> okdeleg2 code.
+
+Ltac vo_start x :=
+  intros g0 hc pc ns code ns' Hv;
+  destruct (negb hc && negb (hard bs g0 x)) eqn:Edel;
+  [rewrite (visit_short x g0 hc pc ns Edel) in Hv; inversion Hv; subst; apply okdeleg2_delegate1;
+   apply andb_true_iff in Edel as [_ Edel]; now apply negb_true_iff in Edel|].
+
+Lemma okdeleg2_one i : okinsn2 i = true -> okdeleg2 [i].
+Proof. intros H. apply okdeleg2_cons. split; auto. reflexivity. Qed.
+
+Definition cfvo (cf : expr -> nat -> nat -> nat -> cerr + cres) (x : expr) : Prop :=
+  forall g pc ns code ns', cf x g pc ns = inr (code, ns') -> okdeleg2 code.
+
+Lemma galt_vo cf : forall l, Forall (cfvo cf) l ->
+  forall g pc ns cds ns', galt_codes cf g pc ns l = inr (cds, ns') -> forall e, okdeleg2 (alt_layout pc e cds).
+Proof.
+  induction 1 as [|x r Hcf Hr IH]; intros g pc ns cds ns' Hc e.
+  - inversion Hc; reflexivity.
+  - destruct r as [|y r].
+    + cbn [galt_codes] in Hc. destruct (cf x g pc ns) as [|[c n1]] eqn:E; [discriminate|]. inversion Hc; subst.
+      cbn [alt_layout]. eapply Hcf; eauto.
+    + rewrite galt_codes_cons2 in Hc. destruct (cf x g (pc + 1) ns) as [|[c n1]] eqn:E; [discriminate|].
+      destruct (galt_codes cf _ _ _ (y :: r)) as [|[cds' n2]] eqn:E2; [discriminate|]. inversion Hc; subst.
+      destruct (galt_codes_ne cf _ _ _ _ _ _ _ E2) as (c' & r' & ->). rewrite alt_layout_cons2.
+      apply okdeleg2_cons. split; [reflexivity|]. apply okdeleg2_app. split; [eapply Hcf; eauto|].
+      apply okdeleg2_cons. split; [reflexivity|]. eapply IH; eauto.
+Qed.
+
+Lemma gseq_vo cf : forall l, Forall (cfvo cf) l ->
+  forall g pc ns code ns', gseq_codes cf g pc ns l = inr (code, ns') -> okdeleg2 code.
+Proof.
+  induction 1 as [|x r Hcf Hr IH]; intros g pc ns code ns' Hc; cbn [gseq_codes] in Hc.
+  - inversion Hc; reflexivity.
+  - apply bindc_inr in Hc as ([c1 n1] & H1 & Hc). apply bindc_inr in Hc as ([c2 n2] & H2 & Hc). inversion Hc; subst.
+    apply okdeleg2_app. split; [eapply Hcf; eauto|eapply IH; eauto].
+Qed.
+
+Lemma la_inner_vo la x : VO x -> forall g pc ns code ns', la_inner la x g pc ns = inr (code, ns') -> okdeleg2 code.
+Proof.
+  intros Hx g pc ns code ns' Hi. destruct la; cbn [la_inner] in Hi; try (eapply Hx; eauto; fail);
+    (destruct (const_size x); [|discriminate]); apply bindc_inr in Hi as ([c n1] & H1 & Hi); inversion Hi; subst;
+    apply okdeleg2_cons; (split; [reflexivity|eapply Hx; eauto]).
+Qed.
+Lemma la_pos_vo la x : VO x -> forall g pc ns code ns', la_pos la x g pc ns = inr (code, ns') -> okdeleg2 code.
+Proof.
+  intros Hx g pc ns code ns' Hv. unfold la_pos in Hv. cbv zeta in Hv.
+  apply bindc_inr in Hv as ([c n1] & H1 & Hv). inversion Hv; subst.
+  pose proof (la_inner_vo la x Hx _ _ _ _ _ H1) as Hc.
+  apply okdeleg2_cons. split; [reflexivity|]. destruct (hard bs g x); cbn [app].
+  - apply okdeleg2_cons. split; [reflexivity|]. apply okdeleg2_app. split; auto. reflexivity.
+  - apply okdeleg2_app. split; auto. reflexivity.
+Qed.
+Lemma la_neg_vo la x : VO x -> forall g pc ns code ns', la_neg la x g pc ns = inr (code, ns') -> okdeleg2 code.
+Proof.
+  intros Hx g pc ns code ns' Hv. unfold la_neg in Hv.
+  apply bindc_inr in Hv as ([c n1] & H1 & Hv). inversion Hv; subst.
+  pose proof (la_inner_vo la x Hx _ _ _ _ _ H1) as Hc.
+  apply okdeleg2_cons. split; [reflexivity|]. apply okdeleg2_app. split; auto. reflexivity.
+Qed.
+
+Lemma visit_list_vo : forall l, Forall VO l -> forall g pc ns code ns', visit_list g pc ns l = inr (code, ns') -> okdeleg2 code.
+Proof.
+  induction 1 as [|x r Hx Hr IH]; intros g pc ns code ns' Hv; cbn [visit_list] in Hv.
+  - inversion Hv; reflexivity.
+  - apply bindc_inr in Hv as ([c1 n1] & H1 & Hv). apply bindc_inr in Hv as ([c2 n2] & H2 & Hv). inversion Hv; subst.
+    apply okdeleg2_app. split; [eapply Hx; eauto|eapply IH; eauto].
+Qed.
+
+Lemma visit_okdeleg2_aux : forall e, VO e /\ Forall VO (alts_of e).
+Proof.
+  induction e using expr_ind'.
+  all: try match goal with |- VO ?e /\ Forall VO (alts_of ?e) =>
+         match e with
+         | Alt _ => idtac
+         | _ => assert (H1 : VO e); [|split; [exact H1|constructor; [exact H1|constructor]]] end end.
+  - vo_start Empty. cbn [visit] in Hv. rewrite Edel in Hv. inversion Hv; reflexivity.
+  - vo_start (Any nl). cbn [visit] in Hv. rewrite Edel in Hv. destruct nl; inversion Hv; reflexivity.
+  - vo_start (Assertion a). cbn [visit] in Hv. rewrite Edel in Hv. inversion Hv; reflexivity.
+  - vo_start (Literal v c). cbn [visit] in Hv. rewrite Edel in Hv. destruct c; inversion Hv; subst; [|reflexivity].
+    apply okdeleg2_delegate1. reflexivity.
+  - (* Concat *)
+    assert (Hk : Forall VO es) by (eapply Forall_impl; [|exact H]; intros a Ha; apply Ha).
+    vo_start (Concat es). rewrite visit_concat in Hv. rewrite Edel in Hv. cbv zeta in Hv.
+    pose proof (cat_bounds bs hc g0 es) as Hb. pose proof (suffix_easy hc es g0) as Hsuf.
+    unfold cat_pe, cat_sb in Hb, Hsuf. cbv zeta in Hb, Hsuf.
+    set (pe := prefix_count bs g0 es) in *. set (sb := length es - _) in *.
+    set (A := firstn pe es) in *. set (B := firstn (sb - pe) (skipn pe es)). set (C := skipn sb es) in *.
+    assert (Hes : es = A ++ B ++ C).
+    { unfold A, B, C. rewrite <- (firstn_skipn pe es) at 1. f_equal.
+      rewrite <- (firstn_skipn (sb - pe) (skipn pe es)) at 1. f_equal. rewrite skipn_add. f_equal. lia. }
+    assert (HlA : length A = pe) by (unfold A; apply firstn_length_le; lia).
+    assert (HlB : length B = sb - pe) by (unfold B; apply firstn_length_le; rewrite skipn_length; lia).
+    apply bindc_inr in Hv as ([cm ns1] & Hm & Hv). inversion Hv; subst code ns'. clear Hv.
+    rewrite Hes in Hm. rewrite (mid_before pe sb (B ++ C) _ ns A 0 g0) in Hm by lia.
+    rewrite (mid_mid pe sb C B) in Hm by lia.
+    assert (Esuf : skipn sb (with_groups g0 es) = with_groups (g0 + ngroups_list (A ++ B)) C).
+    { rewrite Hes at 1. rewrite app_assoc. replace sb with (length (A ++ B)) at 1 by (rewrite app_length; lia). apply skipn_with_groups. }
+    rewrite Esuf. rewrite map_fst_with_groups.
+    apply okdeleg2_app. split; [apply okdeleg2_delegates; apply prefix_easy|].
+    apply okdeleg2_app. split; [|apply okdeleg2_delegates; exact Hsuf].
+    rewrite Hes in Hk. apply Forall_app in Hk as [_ Hk]. apply Forall_app in Hk as [HkB _].
+    eapply visit_list_vo; eauto.
+  - (* Alt *)
+    assert (Hk : Forall VO es) by (eapply Forall_impl; [|exact H]; intros a Ha; apply Ha).
+    split; [|exact Hk]. vo_start (Alt es). rewrite visit_alt in Hv. rewrite Edel in Hv.
+    destruct (alt_codes hc g0 pc ns es) as [|[cds n1]] eqn:Hc; [discriminate|]. inversion Hv; subst.
+    rewrite alt_codes_galt in Hc. eapply (galt_vo (fun x g pc ns => visit bs x g hc pc ns) es); [|exact Hc].
+    eapply Forall_impl; [|exact Hk]. intros x Hx g pc0 ns0 code ns0' Hv0. eapply Hx; eauto.
+  - (* Group *) destruct IHe as [IHe _]. vo_start (Group e). cbn [visit] in Hv. rewrite Edel in Hv.
+    apply bindc_inr in Hv as ([c n1] & H1 & Hv). inversion Hv; subst.
+    apply okdeleg2_cons. split; [reflexivity|]. apply okdeleg2_app. split; [eapply IHe; eauto|reflexivity].
+  - (* LookAround *) destruct IHe as [IHe IHalts]. vo_start (LookAround e la).
+    destruct (match la, e with (LookBehind | LookBehindNeg), Alt _ => negb (const_size e) | _, _ => false end) eqn:Esp.
+    + destruct e as [| | | | |es| | | | | | | | | | |]; try (destruct la; discriminate).
+      assert (Hcs : const_size (Alt es) = false) by (destruct la; try discriminate; now apply negb_true_iff in Esp).
+      cbn [alts_of] in IHalts.
+      destruct la; try discriminate.
+      * rewrite (visit_lb_split es g0 hc pc ns Hcs) in Hv.
+        destruct (galt_codes (la_pos LookBehind) g0 pc ns es) as [|[cds n1]] eqn:Hc; [discriminate|]. inversion Hv; subst.
+        eapply (galt_vo (la_pos LookBehind) es); [|exact Hc].
+        eapply Forall_impl; [|exact IHalts]. intros x Hx. unfold cfvo. apply la_pos_vo. exact Hx.
+      * rewrite (visit_lbn_split es g0 hc pc ns Hcs) in Hv. eapply (gseq_vo (la_neg LookBehindNeg) es); [|exact Hv].
+        eapply Forall_impl; [|exact IHalts]. intros x Hx. unfold cfvo. apply la_neg_vo. exact Hx.
+    + assert (Hlb : lb_alt_const e la).
+      { destruct la; try exact I; destruct e; try exact I; cbn [lb_alt_const]; now apply negb_false_iff in Esp. }
+      rewrite (visit_la e la g0 hc pc ns Hlb) in Hv. rewrite Edel in Hv.
+      destruct la; [eapply la_pos_vo|eapply la_neg_vo|eapply la_pos_vo|eapply la_neg_vo]; eauto.
+  - (* Repeat *) destruct IHe as [IHe _]. vo_start (Repeat e lo hi gr). cbn [visit] in Hv. rewrite Edel in Hv.
+    repeat match type of Hv with (if ?b then _ else _) = _ => destruct b end;
+      apply bindc_inr in Hv as ([c n1] & H1 & Hv); inversion Hv; subst; apply IHe in H1;
+      repeat (first [apply okdeleg2_cons; split; [destruct gr; reflexivity|] | apply okdeleg2_app; split; [exact H1|]]);
+      try exact H1; try (destruct gr; reflexivity).
+  - vo_start (Delegate i s c k). cbn [visit] in Hv. rewrite Edel in Hv. inversion Hv; subst. apply okdeleg2_delegate1. reflexivity.
+  - vo_start (Backref g). cbn [visit] in Hv. rewrite Edel in Hv. inversion Hv; reflexivity.
+  - (* AtomicGroup *) destruct IHe as [IHe _]. vo_start (AtomicGroup e). cbn [visit] in Hv. rewrite Edel in Hv.
+    apply bindc_inr in Hv as ([c n1] & H1 & Hv). inversion Hv; subst.
+    apply okdeleg2_cons. split; [reflexivity|]. apply okdeleg2_app. split; [eapply IHe; eauto|reflexivity].
+  - vo_start KeepOut. cbn [visit] in Hv. rewrite Edel in Hv. inversion Hv; reflexivity.
+  - vo_start ContinueFromPreviousMatchEnd. cbn [visit] in Hv. rewrite Edel in Hv. inversion Hv; reflexivity.
+  - vo_start (BackrefExistsCondition g). cbn [visit] in Hv. rewrite Edel in Hv. inversion Hv; reflexivity.
+  - (* Conditional *) destruct IHe1 as [IH1 _]. destruct IHe2 as [IH2 _]. destruct IHe3 as [IH3 _].
+    vo_start (Conditional e1 e2 e3). cbn [visit] in Hv. rewrite Edel in Hv.
+    apply bindc_inr in Hv as ([cc n1] & H1 & Hv). apply bindc_inr in Hv as ([cy n2] & H2 & Hv).
+    apply bindc_inr in Hv as ([cn n3] & H3 & Hv). inversion Hv; subst.
+    apply okdeleg2_cons. split; [reflexivity|]. apply okdeleg2_cons. split; [reflexivity|].
+    apply okdeleg2_app. split; [eapply IH1; eauto|]. apply okdeleg2_cons. split; [reflexivity|].
+    apply okdeleg2_app. split; [eapply IH2; eauto|]. apply okdeleg2_cons. split; [reflexivity|eapply IH3; eauto].
+  - vo_start (SubroutineCall g). cbn [visit] in Hv. rewrite Edel in Hv. discriminate.
+Qed.
+
+Theorem visit_okdeleg2 : forall e g hc pc ns code ns', visit bs e g hc pc ns = inr (code, ns') -> okdeleg2 code.
+Proof. intros e. apply (proj1 (visit_okdeleg2_aux e)). Qed.
+
 End D.
 
 End CC.
